@@ -94,6 +94,17 @@ func main() {
 		file := filepath.Base(in)
 		file = file[0 : len(file)-len(filepath.Ext(in))] // Remove extension.
 
-		os.WriteFile(filepath.Join(options.out, fmt.Sprintf("%s.%s", file, conv.Extension())), []byte(dump), 0777)
+		target := filepath.Join(options.out, fmt.Sprintf("%s.%s", file, conv.Extension()))
+
+		// Never overwrite the input with its own transpilation.
+		if inInfo, err := os.Stat(in); err == nil {
+			if targetInfo, err := os.Stat(target); err == nil && os.SameFile(inInfo, targetInfo) {
+				panic(fmt.Errorf("output file %s is the input file", target))
+			}
+		}
+
+		if err := os.WriteFile(target, []byte(dump), 0777); err != nil {
+			panic(err)
+		}
 	}
 }
